@@ -80,6 +80,9 @@ def flowir_of(w):
         d = {'name': c['name'], 'stage': c['stage'],
              'command': {'executable': c['exe'], 'arguments': ' '.join(args)},
              'references': [ref_string(w, r, ref_spelling(w, c, r)) for r in c['refs']]}
+        if c.get('exe_var'):
+            d['command']['executable'] = '%(tool)s'
+            d['variables'] = {'tool': c['exe']}
         b = c['backend']
         if b[0] == 'kubernetes':
             d['resourceManager'] = {'config': {'backend': 'kubernetes'}, 'kubernetes': {'image': b[1]}}
@@ -160,6 +163,10 @@ def gen_world(rng, kw=False):
     if rng.random() < 0.1:
         k = rng.choice(sorted(w['inputs']))
         w['inputs'][k][1] = 'missing'
+    # some components name their executable through a variable: the hash must record the RESOLVED executable
+    for c in w['comps']:
+        if not c.get('replicate') and rng.random() < 0.25:
+            c['exe_var'] = True
     return w
 
 
